@@ -57,28 +57,45 @@ def order(ctx, rule='K2'):
         while x[0] == 'call':
             chain.append(x[1])
             x = x[2][0]
-        want = ['std::iter::Iterator::filter_map', 'std::iter::Iterator::enumerate', 'core::slice::iter', 'std::ops::Index::index']
-        ok = chain[:4] == want and is_param_path(x, 1, ['data'])
-        ctx.inst(rule, b.name + '#chain', ok, 'frame_cels = %s; must be data[frame].iter().enumerate().filter_map(..) with no '
-                 'rev/skip/step_by/sort' % ' <- '.join(c.split('::')[-1] for c in chain), b.span, key=b.name + '|%s|chain' % rule)
+        # enumerate() must number the *slots* (it sits directly on the slice iterator), whatever order-preserving adaptor drops the
+        # empty slots afterwards (filter_map / flat_map / filter / map); nothing may reorder or renumber
+        short = [c.split('::')[-1] for c in chain]
+        tail = short[-3:] == ['enumerate', 'iter', 'index'] if len(short) >= 3 else False
+        head = short[:-3] if tail else short
+        ok = tail and 1 <= len(head) <= 2 and all(h in ('filter_map', 'flat_map', 'filter', 'map') for h in head) and is_param_path(x, 1, ['data'])
+        ctx.inst(rule, b.name + '#chain', ok, 'frame_cels = %s; must be data[frame].iter().enumerate() followed only by filter_map / flat_map / filter / map '
+                 '(enumerate numbers the slots; no rev/skip/step_by/sort/flatten-before-enumerate)' % ' <- '.join(short), b.span, key=b.name + '|%s|chain' % rule)
         if ok:
-            row = t[2][0][2][0][2][0]      # the Index::index call
-            ok2 = is_param(strip_casts(row[2][1]), 2)
-            ctx.inst(rule, b.name + '#row', ok2, 'frame_cels iterates row %s; must be data[frame_id]' % show(row[2][1]), b.span,
+            rows = [x_ for x_ in walk(t) if x_[0] == 'call' and x_[1] == 'std::ops::Index::index' and is_param_path(x_[2][0], 1, ['data'])]
+            ok2 = len(rows) >= 1 and all(is_param(strip_casts(r_[2][1]), 2) for r_ in rows)
+            ctx.inst(rule, b.name + '#row', ok2, 'frame_cels iterates row %s; must be data[frame_id]' % (show(rows[0][2][1]) if rows else '?'), b.span,
                      key=b.name + '|%s|row' % rule)
-            cl = t[2][1]
-            cb = fx.by_path.get(cl[1]) if cl[0] == 'closure' else None
+            # the closure(s) of the adaptor(s) after enumerate() pair the slot's own index (.0 of the enumerate item) with its cel (.1)
             okc = False
             desc = '?'
-            if cb is not None:
+            todo = [x_ for x_ in walk(t) if x_[0] == 'closure']
+            seen_c = set()
+            while todo:
+                cl = todo.pop()
+                if cl[1] in seen_c or cl[1] not in fx.by_path:
+                    continue
+                seen_c.add(cl[1])
+                cb = fx.by_path[cl[1]]
                 rt = expand(res(cb).ret(), fx, 2)
                 desc = show(rt)[:140]
-                for a in alts(rt):
-                    a = q.payload(a) if a[0] == 'agg' and a[2] == 'Some' else a
-                    if a[0] == 'tuple' and len(a[1]) == 2:
-                        i0 = strip_casts(a[1][0])
-                        okc = i0[0] == 'field' and i0[2] == '0' and is_param(i0[1], 2) and \
-                            any(x[0] == 'field' and x[2] == '1' and is_param(x[1], 2) for x in walk(a[1][1]))
+                todo += [x_ for x_ in walk(rt) if x_[0] == 'closure']
+                caps = {i_: c_[1] for i_, c_ in enumerate(cl[2])}
+
+                def from_item(x_, fld):
+                    x_ = strip_casts(x_)
+                    if x_[0] == 'field' and x_[2] == fld and is_param(x_[1], 2):
+                        return True            # .fld of this closure's own argument (the enumerate item)
+                    if x_[0] == 'field' and is_param(x_[1], 1) and x_[2].isdigit() and int(x_[2]) in caps:
+                        return from_item(caps[int(x_[2])], fld)       # a captured copy
+                    return False
+                for a in [y_ for y_ in walk(rt) if y_[0] == 'tuple' and len(y_[1]) == 2]:
+                    if from_item(a[1][0], '0') and (any(from_item(y_, '1') for y_ in walk(a[1][1])) or is_param(strip_casts(a[1][1]), 2)):
+                        okc = True
             ctx.inst(rule, b.name + '#item', okc, 'frame_cels yields %s; must be (enumerate index as layer id, the cel of that slot)' % desc,
                      b.span, key=b.name + '|%s|item' % rule)
     fi = ctx.anchor(AF + 'frame_image')
@@ -118,6 +135,17 @@ def duplicate_cel(ctx, rule='K3'):
         ok = q.arm_always_err(b, occ)
         ctx.inst(rule, b.name, ok, 'a second cel for an occupied (frame, layer) slot -> %s' % ('Err' if ok else 'NOT rejected'), tm['span'],
                  key=b.name + '|%s|occupied' % rule)
+    if n == 0:
+        # `match &mut layers[i] { Some(_) => Err(..), slot @ None => .. }`: a switch on the slot's own discriminant
+        for sw in q.switches_on(b, lambda d: d[0] == 'discr' and d[1][0] == 'call' and d[1][1] in ('std::ops::Index::index', 'std::ops::IndexMut::index_mut')):
+            tm = b.blocks[sw]['term']
+            some = [s_ for v_, s_ in tm['targets'] if v_ == 1] or ([tm['otherwise']] if any(v_ == 0 for v_, _ in tm['targets']) else [])
+            if not some:
+                continue
+            n += 1
+            ok = all(q.arm_always_err(b, e_) for e_ in some)
+            ctx.inst(rule, b.name, ok, 'a second cel for an occupied (frame, layer) slot -> %s' % ('Err' if ok else 'NOT rejected'), tm['span'],
+                     key=b.name + '|%s|occupied' % rule)
     ctx.floor('occupied-slot tests in add_cel', n, 1)
 
 
@@ -277,6 +305,28 @@ def operands_and_offset(ctx, rule_p='K7', rule_x='K8'):
             oks = bool(srcs) and (src[0] == 'index' or (src[0] == 'call' and src[1] == 'std::ops::Index::index'))
             ctx.inst(rule_p, fn + '#source', oks, 'source pixel = %s; must be an element of the cel/tile pixel slice' % show(src)[:100], c.span,
                      key=ctx.key(fn, rule_p, 'source', ''))
+            if oks and okd and fn.endswith('write_raw_cel_to_image'):
+                # which element: cel pixel (i, j) lands on canvas (cel.x + i, cel.y + j), i.e. index == (ty - cel.y) * width + (tx - cel.x)
+                import poly as P
+                idx = src[2] if src[0] == 'index' else src[2][1]
+                sz = param_named(b, ty_contains='cel::ImageSize')
+                W = P.canon(('field', ('param', sz, None), 'width'))
+                cx = P.canon(('field', ('param', cd, None), 'x'))
+                cy = P.canon(('field', ('param', cd, None), 'y'))
+                want = {}
+
+                def add(pv, cf, extra=()):
+                    for k_, v_ in pv.items():
+                        kk = tuple(sorted(k_ + extra, key=repr))
+                        want[kk] = want.get(kk, 0) + cf * v_
+                add(P.poly(dst[2][2]), 1, (W,))
+                add({(cy,): 1}, -1, (W,))
+                add(P.poly(dst[2][1]), 1)
+                add({(cx,): 1}, -1)
+                want = {k_: v_ for k_, v_ in want.items() if v_ != 0}
+                got = P.poly(idx)
+                ctx.inst(rule_p, fn + '#source-index', got == want, 'source index = %s; must be (target y - cel.y) * cel width + (target x - cel.x)' % P.show(got)[:160],
+                         c.span, key=ctx.key(fn, rule_p, 'source-index', ''))
             # offset: coordinates contain the sign-extended cel x / y
             if okd:
                 for ax, fld, dimk in ((dst[2][1], 'x', ('width', '0')), (dst[2][2], 'y', ('height', '1'))):
@@ -305,6 +355,11 @@ def operands_and_offset(ctx, rule_p='K7', rule_x='K8'):
                                 lo = lo or q.const_val(f['start']) == 0
                                 dims = [x for x in walk(f['end']) if x[0] == 'call' and x[1] == 'image::ImageBuffer::' + dimk[0] and is_param(x[2][0], img)]
                                 hi = hi or bool(dims)
+                    if not (lo and hi):
+                        rl, rh = clipped_by_range(ax, dimk, img)
+                        lo, hi = lo or rl, hi or rh
+                    if not (lo and hi) and clipped_by_clamped_span(ax, dimk, img):
+                        lo = hi = True
                     ctx.inst(rule_x, '%s#clip-%s' % (fn, fld), lo and hi, 'pixel access is guarded by 0 <= %s (%s) and %s < image %s (%s)'
                              % (fld, lo, fld, dimk[0], hi), c.span, key=ctx.key(fn, rule_x, 'clip', fld))
 
@@ -331,7 +386,59 @@ def clip_guarded(b, bb, coord, axis_dims, img):
                 lo = lo or q.const_val(f['start']) == 0
                 dims = [x for x in walk(f['end']) if x[0] == 'call' and x[1] == 'image::ImageBuffer::' + axis_dims[0] and is_param(x[2][0], img)]
                 hi = hi or bool(dims)
+    if not (lo and hi):
+        rl, rh = clipped_by_range(coord, axis_dims, img)
+        lo, hi = lo or rl, hi or rh
+    if not (lo and hi) and clipped_by_clamped_span(coord, axis_dims, img):
+        lo = hi = True
     return lo and hi
+
+
+def clipped_by_range(coord, axis_dims, img):
+    """the coordinate is itself a loop variable whose range was clipped up front: start is a constant >= 0 or max(_, 0),
+    end is the image dimension or min(_, image dimension) -> (lower ok, upper ok)"""
+    rb = _range_bounds(strip_casts(coord))
+    if rb is None:
+        return False, False
+    starts, ends = rb
+    lo = any(isinstance(q.const_val(x), int) and q.const_val(x) >= 0 for x in starts) and \
+        (len(starts) > 1 or isinstance(q.const_val(starts[0]), int))
+
+    def is_dim(t):
+        t = strip_casts(t)
+        if t[0] == 'call' and t[1] == 'image::ImageBuffer::' + axis_dims[0] and is_param(t[2][0], img):
+            return True
+        return t[0] == 'field' and t[2] == axis_dims[1] and t[1][0] == 'call' and t[1][1] == 'image::ImageBuffer::dimensions' and is_param(t[1][2][0], img)
+    hi = any(is_dim(x) for x in ends)
+    return lo, hi
+
+
+def clipped_by_clamped_span(coord, axis_dims, img):
+    """coordinate = O + v where v runs over clamp(-O, 0, L) .. clamp(DIM - O, 0, L): then 0 <= O + v < DIM whenever the range is
+    not empty (if -O > L the start is L >= end; if DIM - O < 0 the end is 0 <= start).  -> bool"""
+    import poly as P
+    pc = P.poly(coord)
+    vs = [k[0] for k, c_ in pc.items() if len(k) == 1 and c_ == 1 and P.loop_var_end(k[0]) is not None]
+    for v in vs:
+        st_, en = P.loop_var_end(v)
+        cs, ce = P.clamp_args(st_), P.clamp_args(en)
+        if cs is None or ce is None or q.const_val(cs[1]) != 0 or q.const_val(ce[1]) != 0 or P.canon(cs[2]) != P.canon(ce[2]):
+            continue
+        O = {k: c_ for k, c_ in pc.items() if k != (v,)}
+        negO = {k: -c_ for k, c_ in O.items()}
+        if P.poly(cs[0]) != negO:
+            continue
+        rest = dict(P.poly(ce[0]))
+        for k, c_ in O.items():
+            rest[k] = rest.get(k, 0) + c_
+        rest = {k: c_ for k, c_ in rest.items() if c_ != 0}
+        if len(rest) == 1:
+            (k, c_), = rest.items()
+            t = k[0] if len(k) == 1 else None
+            if c_ == 1 and t is not None and ((t[0] == 'call' and t[1] == 'image::ImageBuffer::' + axis_dims[0] and is_param(t[2][0], img)) or
+                                              (t[0] == 'field' and t[2] == axis_dims[1] and t[1][0] == 'call' and t[1][1] == 'image::ImageBuffer::dimensions')):
+                return True
+    return False
 
 
 def ancestor_walk(ctx, rule='K4'):
@@ -570,3 +677,42 @@ def layer_image_unconditional(ctx, rule='R5'):
             extra.append(show(cond)[:90])
         ctx.inst(rule, 'layer_image#unconditional', not extra, 'layer_image draws the cel under conditions other than "the cel exists": %s' % (extra or 'none'),
                  c.span, key=ctx.key(b.name, rule, 'unconditional', ''))
+
+
+def _range_bounds(v):
+    """loop variable v -> (start candidates, end candidates): the bound itself and, for max(a, b) / min(a, b), its arguments"""
+    import poly as P
+    r_ = P.loop_var_end(v)
+    if r_ is None:
+        return None
+    st_, en = r_
+
+    def cands(t, fn):
+        t = strip_casts(t)
+        out = [t]
+        if t[0] == 'call' and t[1].split('::')[-1] == fn and t[1].startswith(('std::cmp::', 'core::cmp::')) and len(t[2]) == 2:
+            out += [strip_casts(a) for a in t[2]]
+        return out
+    return cands(st_, 'max'), cands(en, 'min')
+
+
+def offset_origin(v, size_ok):
+    """v is a loop variable that runs over (a sub-range of) o .. o + SIZE: returns o (possibly const 0), so that v - o lies in 0..SIZE.
+    size_ok(term) says whether a term is the SIZE wanted.  Accepted ranges: o..o+SIZE, 0..SIZE, max(o, _)..min(o+SIZE, _)."""
+    import poly as P
+    rb = _range_bounds(v)
+    if rb is None:
+        return None
+    starts, ends = rb
+    for o in starts:
+        po = P.poly(o)
+        for e in ends:
+            diff = dict(P.poly(e))
+            for k_, c_ in po.items():
+                diff[k_] = diff.get(k_, 0) - c_
+            diff = {k_: c_ for k_, c_ in diff.items() if c_ != 0}
+            if len(diff) == 1:
+                (k_, c_), = diff.items()
+                if c_ == 1 and len(k_) == 1 and size_ok(k_[0]):
+                    return o
+    return None
